@@ -103,6 +103,10 @@ func genSession(r *rand.Rand, i int) J {
 	}
 	ill := illFormedTemplates()
 	templates = append(templates, ill[r.Intn(len(ill))])
+	// an included file (registered in the engine's cache) that fails part-way for the environments whose q holds a
+	// zero: later renders that include it, with the other environments, are not affected
+	incTpl := []any{nText("("), J{"t": "include", "e": eLit(vStr("zz_inc_q.liq"))}, nText(")")}
+	templates = append(templates, incTpl, []any{nObj(eVar("n")), J{"t": "include", "e": eFilter(eLit(vStr("zz_inc_q")), "append", eLit(vStr(".liq")))}})
 	nops := 2 + r.Intn(10)
 	if r.Intn(4) == 0 {
 		nops = 12 + r.Intn(28)
@@ -121,7 +125,8 @@ func genSession(r *rand.Rand, i int) J {
 		}
 		ops = append(ops, op)
 	}
-	return J{"kind": "session", "templates": templates, "envs": envs, "reprs": reprs, "ops": ops}
+	incBody := []any{nText("["), J{"t": "for", "tag": "for", "var": bs("x"), "coll": eVar("q"), "body": []any{nObj(eFilter(eLit(vInt(6)), "divided_by", eVar("x"))), nText(",")}}, nText("]")}
+	return J{"kind": "session", "templates": templates, "envs": envs, "reprs": reprs, "ops": ops, "cache": []any{[]any{bs("zz_inc_q.liq"), incBody}}}
 }
 
 // sessions that iterate maps: the order is not decided by C11 but must be the same every time (C02)
@@ -266,7 +271,12 @@ func coverageTemplates() [][]any {
 		nObj(eFilter(eVar("h"), "json")), nObj(eFilter(eVar("a"), "inspect")), nObj(eFilter(eLit(vInt(1)), "type")),
 		nObj(eFilter(eLit(vStr("2020-01-02")), "date", eLit(vStr("%Y")))),
 	}
-	return [][]any{allTags, filters1, filters2}
+	// dates written in several of the formats the library recognises (it tries its layouts in turn)
+	dates := []any{}
+	for _, d := range []string{"2020-01-02", "02 Jan 2020", "02 January 2020", "2020-01-02T03:04:05Z", "20200102T030405Z", "2021-12-28", "28 Dec 2021"} {
+		dates = append(dates, nObj(eFilter(eLit(vStr(d)), "date", eLit(vStr("%Y-%m-%d")))), nText("|"))
+	}
+	return [][]any{allTags, filters1, filters2, dates}
 }
 
 func genConSession(r *rand.Rand, i int) J {
